@@ -25,7 +25,7 @@ def obligations(tier):
         for pfx in pfxs:
             for k1 in k1s:
                 for n1 in range(4):
-                    obs.append(dict(name=f"{f}[prefix{pfx},k1={k1},n1={n1}]", func=f, pre=f"pfx == {pfx} and k1 == {k1} and n1 == {n1}", timeout=T,
+                    obs.append(dict(name=f"{f}[prefix{pfx},k1={k1},n1={n1}]", func=f, pre=f"pfx == {pfx} and k1 == {k1} and n1 == {n1}", timeout=(2 * T if (f == "rules_sm" and k1 in (3, 8) and n1 >= 2) else T),
                                     bounds="2 symbolic parameters after a concrete prefix: first key spelling and shape fixed per obligation, second from 6 spellings x 4 shapes; components <=2 arbitrary chars"))
     for n in range(3, 9):
         for vs in (False, True):
